@@ -549,14 +549,16 @@ impl Group {
         )
     }
 
-    /// Check the signature on an RRset.
+    /// Check that an RRSIG record is suitable for validating this RRset
+    /// with the given key.
     ///
-    /// Follow [RFC 4035, Section 5.3](https://www.rfc-editor.org/rfc/rfc4035.html#section-5.3).
+    /// Follow [RFC 4035, Section 5.3.1](https://www.rfc-editor.org/rfc/rfc4035.html#section-5.3.1).
     ///
-    /// The result of this function is cached, so it must not depend on
-    /// the current time. The validity period of the signature is checked
-    /// by [`Self::check_sig_cached`].
-    fn check_sig(
+    /// These checks depend on the owner name of the RRset, on the signer
+    /// name and on the key name. They are not covered by the key of the
+    /// signature cache and have to be done every time. The validity period
+    /// of the signature is checked by [`Self::check_sig_cached`].
+    fn check_sig_rules(
         &self,
         sig: &Record<Name<Bytes>, Rrsig<Bytes, Name<Bytes>>>,
         signer_name: &Name<Bytes>,
@@ -623,14 +625,7 @@ impl Group {
             return false;
         }
 
-        //signature
-        let mut signed_data = Vec::<u8>::new();
-        rrsig
-            .signed_data(&mut signed_data, &mut self.rr_set())
-            .expect("infallible");
-        let res = rrsig.verify_signed_data(key, &signed_data);
-
-        res.is_ok()
+        true
     }
 
     /// Check a signature over an RRset using a cache.
@@ -655,6 +650,15 @@ impl Group {
         if ts_now.canonical_gt(&sig.data().expiration())
             || ts_now.canonical_lt(&sig.data().inception())
         {
+            return false;
+        }
+
+        // The signed data contains the owner name with a wildcard label in
+        // place of the labels that are not counted by the Labels field, so
+        // the same signed data, signature and key can come with different
+        // owner names. Only the result of the cryptographic verification
+        // may be taken from the cache.
+        if !self.check_sig_rules(sig, signer_name, key, key_name, key_tag) {
             return false;
         }
 
@@ -684,7 +688,7 @@ impl Group {
         if let Some(ce) = cache.cache.get(&cache_key).await {
             return ce;
         }
-        let res = self.check_sig(sig, signer_name, key, key_name, key_tag);
+        let res = sig.data().verify_signed_data(key, &cache_key.0).is_ok();
         cache.cache.insert(cache_key, res).await;
         res
     }
